@@ -456,3 +456,62 @@ Proof.
   pose proof (proj1 (forallb_forall _ _) H n Hn) as Hm. cbv beta in Hm.
   rewrite Hm in Hf. discriminate Hf.
 Qed.
+
+(* ---- [data] lists: order as written, no de-duplication ------------------- *)
+(* the string does not contain the character c *)
+Fixpoint lacks (c : ascii) (s : string) : bool :=
+  match s with
+  | EmptyString => true
+  | String d r => (negb (Ascii.eqb d c) && lacks c r)%bool
+  end.
+
+Lemma split_lacks c s : lacks c s = true -> split c s = [s].
+Proof.
+  induction s as [|d r IH]; intros H; [reflexivity|].
+  simpl in H. apply andb_true_iff in H. destruct H as [Hd Hr].
+  apply negb_true_iff in Hd. simpl. rewrite Hd, (IH Hr). reflexivity.
+Qed.
+
+Lemma split_app c a t :
+  lacks c a = true -> split c (String.append a (String c t)) = a :: split c t.
+Proof.
+  induction a as [|d r IH]; intros H.
+  - simpl. rewrite Ascii.eqb_refl. reflexivity.
+  - simpl in H. apply andb_true_iff in H. destruct H as [Hd Hr].
+    apply negb_true_iff in Hd. simpl. rewrite Hd, (IH Hr). reflexivity.
+Qed.
+
+Lemma split_concat c names :
+  names <> [] -> Forall (fun n => lacks c n = true) names ->
+  split c (String.concat (String c EmptyString) names) = names.
+Proof.
+  induction names as [|a r IH]; intros Hne Hall; [contradiction Hne; reflexivity|].
+  inversion Hall as [|x l Ha Hr]; subst.
+  destruct r as [|b r'].
+  - simpl. apply split_lacks. exact Ha.
+  - change (String.concat (String c EmptyString) (a :: b :: r'))
+      with (String.append a (String.append (String c EmptyString)
+                                           (String.concat (String c EmptyString) (b :: r')))).
+    change (String.append (String c EmptyString) (String.concat (String c EmptyString) (b :: r')))
+      with (String c (String.concat (String c EmptyString) (b :: r'))).
+    rewrite (split_app c a _ Ha). f_equal. apply IH; [discriminate | exact Hr].
+Qed.
+
+(* Whatever list of names is written (comma separated, names without commas
+   and without surrounding blanks), the parser hands on exactly that list:
+   same order, repeated names kept. *)
+Lemma strlist_as_written names :
+  names <> [] ->
+  Forall (fun n => lacks ","%char n = true /\ trim n = n) names ->
+  String.concat "," names <> EmptyString ->
+  read_value TStrList (String.concat "," names) = Ok (Some (VStrs names)).
+Proof.
+  intros Hne Hall Hs. unfold read_value.
+  destruct (String.concat "," names) eqn:E; [contradiction Hs; reflexivity|].
+  rewrite <- E.
+  rewrite (split_concat ","%char names Hne).
+  - f_equal. f_equal. f_equal.
+    rewrite <- (map_id names) at 2. apply map_ext_in.
+    intros n Hn. rewrite Forall_forall in Hall. exact (proj2 (Hall n Hn)).
+  - rewrite Forall_forall in *. intros n Hn. exact (proj1 (Hall n Hn)).
+Qed.
